@@ -36,7 +36,13 @@ of them, which are not injective.
 
 Signing bytes are a keccak hash of an ABI encoding; here they are the tuple `SignBytes` of exactly
 the fields that enter the encoding (C05 / the ABI model prove the concrete dependence).  A signature
-records which eth key made it (`by_`, 0 = garbage) and the tuple it was made for.
+records which eth key made it (`by_`, 0 = garbage), the tuple it was made for and the byte form
+(`Wire`) in which it was submitted — and is stored: the code stores the submitted bytes verbatim,
+so the check that admits a signature must be a check of exactly those bytes.
+
+Accounts carry the chain they were registered for (`chain = 0` is the chain the queue / batch
+belongs to, any other number a sibling chain of the same chain type); a validator may hold
+different keys on different chains, and only the account registered for the target chain counts.
 -/
 import PalomaModel.Model.Libcons
 
@@ -256,6 +262,38 @@ def Kind.feePayer : Kind → Bool
   | .uusc => true
   | _ => false
 
+/-- byte form of a submitted signature `r ‖ s ‖ v` by some key over some digest.  The first two forms
+    are the two encodings `crypto.Ecrecover` maps to the signer (65 bytes, recovery id 0/1; the second
+    is the twin `(r, n − s, v xor 1)`); the others are renderings of the same `(r, s)` that a strict
+    recover over the stored bytes does not map to the signer. -/
+inductive Wire where
+  | canonical
+  | highS
+  /-- recovery id spelled 27/28 (wallet / `personal_sign` style) -/
+  | v27
+  /-- recovery id 2/3 -/
+  | recid23
+  /-- 64 bytes: recovery id missing -/
+  | short
+  /-- 66 bytes: one trailing byte -/
+  | long
+deriving DecidableEq, Repr
+
+/-- `crypto.Ecrecover(digest, sig)` over the bytes as they are (and as they are stored and later
+    relayed with 27 added to the last byte) yields the signer -/
+def Wire.strict : Wire → Bool
+  | .canonical => true
+  | .highS => true
+  | _ => false
+
+/-- skyway's `EthAddressFromSignature` (the bridge's own convention, the one the batch relayer
+    follows): at least 65 bytes, 27/28 is mapped to 0/1, then `crypto.SigToPub` -/
+def Wire.bridge : Wire → Bool
+  | .canonical => true
+  | .highS => true
+  | .v27 => true
+  | _ => false
+
 /-- the fields the signing bytes are computed from -/
 structure SignBytes where
   kind : Kind
@@ -276,6 +314,8 @@ structure Sig where
   key : Nat
   by_ : Nat
   for_ : SignBytes
+  /-- byte form in which the signature was submitted and is stored -/
+  wire : Wire := .canonical
 deriving DecidableEq, Repr
 
 structure Item where
@@ -327,6 +367,7 @@ structure BConfirm where
   addr : Nat
   by_ : Nat
   for_ : BBytes
+  wire : Wire := .canonical
 deriving DecidableEq, Repr
 
 structure Batch where
@@ -409,16 +450,20 @@ def dupCheck : List Sig → Nat → Nat → Option SignRes
     else dupCheck rest key val
 
 /-- the queue's `VerifySignature`: only the canonical 20-byte spelling of the key bytes is accepted
-    (`key % 4 == 0`) and the recovered account equals `BytesToAddress(key)` -/
-def verifies (key by_ : Nat) (for_ cur : SignBytes) : Bool := key % 4 == 0 && by_ == canon key && for_ == cur
+    (`key % 4 == 0`), `crypto.Ecrecover` runs over the submitted bytes as they are (`w.strict`) and the
+    recovered account equals `BytesToAddress(key)` -/
+def verifies (w : Wire) (key by_ : Nat) (for_ cur : SignBytes) : Bool :=
+  w.strict && key % 4 == 0 && by_ == canon key && for_ == cur
 
 /-- `VerifySignature` before 23185e9f: any spelling of the key bytes verified -/
-def verifiesPreFix (key by_ : Nat) (for_ cur : SignBytes) : Bool := by_ == canon key && for_ == cur
+def verifiesPreFix (w : Wire) (key by_ : Nat) (for_ cur : SignBytes) : Bool :=
+  w.strict && by_ == canon key && for_ == cur
 
 def addSig (it : Item) (sg : Sig) : Item := { it with sigs := it.sigs ++ [sg] }
 
 /-- `AddMessageSignature` for one message, with the queue's signature check `vf` -/
-def signWith (vf : Nat → Nat → SignBytes → SignBytes → Bool) (s : State) (id val addr by_ : Nat) (for_ : SignBytes) : State × SignRes :=
+def signWith (vf : Wire → Nat → Nat → SignBytes → SignBytes → Bool) (s : State) (id val addr by_ : Nat) (for_ : SignBytes)
+    (w : Wire) : State × SignRes :=
   match signingKey s.regs val addr with
   | none => (s, .noKey)
   | some key =>
@@ -428,12 +473,12 @@ def signWith (vf : Nat → Nat → SignBytes → SignBytes → Bool) (s : State)
       match dupCheck it.sigs key val with
       | some r => (s, r)
       | none =>
-        if vf key by_ for_ (bytesOf it) then
-          ({ s with queue := setItem s.queue (addSig it ⟨val, addr, key, by_, for_⟩) }, .ok)
+        if vf w key by_ for_ (bytesOf it) then
+          ({ s with queue := setItem s.queue (addSig it ⟨val, addr, key, by_, for_, w⟩) }, .ok)
         else (s, .badSig)
 
-def sign (s : State) (id val addr by_ : Nat) (for_ : SignBytes) : State × SignRes :=
-  signWith verifies s id val addr by_ for_
+def sign (s : State) (id val addr by_ : Nat) (for_ : SignBytes) (w : Wire := .canonical) : State × SignRes :=
+  signWith verifies s id val addr by_ for_ w
 
 /-! ### gas estimates, election, fee attachment -/
 
@@ -548,6 +593,14 @@ def offeredWith (sm : Item → Bool) (q : List Item) (v : Nat) : List Nat := rel
 
 def offered (q : List Item) (v : Nat) : List Nat := offeredWith senderMsg q v
 
+/-- `defaultResponseMessageCount`: the query answers are cut to this many messages *after* filtering -/
+def respCap : Nat := 1000
+
+/-- what the `GetMessagesForRelaying` query returns: the first `respCap` of the offered messages.
+    The filters — the pending validator-set update included — are evaluated over the whole queue,
+    however long it is. -/
+def offeredPage (q : List Item) (v : Nat) : List Nat := (offered q v).take respCap
+
 /-! ### bridge batches -/
 
 def getBatch (bs : List Batch) (n : Nat) : Option Batch := bs.find? (fun b => b.nonce == n)
@@ -570,7 +623,7 @@ deriving DecidableEq, Repr
 def addConfirm (b : Batch) (c : BConfirm) : Batch := { b with confirms := b.confirms ++ [c] }
 
 /-- `ConfirmBatch`; `keyOnce = false` is the code before db2aad4e (no duplicate-key test) -/
-def confirmWith (keyOnce : Bool) (s : State) (nonce val addr by_ : Nat) (for_ : BBytes) : State × ConfRes :=
+def confirmWith (keyOnce : Bool) (s : State) (nonce val addr by_ : Nat) (for_ : BBytes) (w : Wire) : State × ConfRes :=
   match getBatch s.batches nonce with
   | none => (s, .notFound)
   | some b =>
@@ -578,13 +631,13 @@ def confirmWith (keyOnce : Bool) (s : State) (nonce val addr by_ : Nat) (for_ : 
     | none => (s, .noAddr)
     | some a =>
       if canon a != canon addr then (s, .mismatch)
-      else if !(by_ == canon a && for_ == bbytes b) then (s, .badSig)
+      else if !(w.bridge && by_ == canon a && for_ == bbytes b) then (s, .badSig)
       else if b.confirms.any (fun c => c.val == val) then (s, .dup)
       else if keyOnce && b.confirms.any (fun c => canon c.addr == canon addr) then (s, .dupKey)
-      else ({ s with batches := setBatch s.batches (addConfirm b ⟨val, addr, by_, for_⟩) }, .ok)
+      else ({ s with batches := setBatch s.batches (addConfirm b ⟨val, addr, by_, for_, w⟩) }, .ok)
 
-def confirm (s : State) (nonce val addr by_ : Nat) (for_ : BBytes) : State × ConfRes :=
-  confirmWith true s nonce val addr by_ for_
+def confirm (s : State) (nonce val addr by_ : Nat) (for_ : BBytes) (w : Wire := .canonical) : State × ConfRes :=
+  confirmWith true s nonce val addr by_ for_ w
 
 /-- `UpdateBatchGasEstimate` -/
 def updateBatchGas (s : State) (nonce g : Nat) : State × Bool :=
@@ -601,7 +654,7 @@ inductive Op where
   | register (val : Nat) (accts : List Account)
   | put (kind : Kind) (content sender assignee remote : Nat) (reqEst : Bool)
   | enqueue (kind : Kind) (content sender : Nat) (mev : Bool) (ts : Nat)
-  | sign (id val addr by_ : Nat) (for_ : SignBytes)
+  | sign (id val addr by_ : Nat) (for_ : SignBytes) (w : Wire := .canonical)
   | addEstimate (id val value : Nat)
   | endBlock
   | setPublic (id : Nat)
@@ -609,7 +662,7 @@ inductive Op where
   | addEvidence (id val h : Nat)
   | remove (id : Nat)
   | putBatch (nonce content remote : Nat)
-  | confirm (nonce val addr by_ : Nat) (for_ : BBytes)
+  | confirm (nonce val addr by_ : Nat) (for_ : BBytes) (w : Wire := .canonical)
   | updateBatchGas (nonce g : Nat)
 
 def apply (s : State) : Op → State
@@ -617,7 +670,7 @@ def apply (s : State) : Op → State
   | .register v a => (register s v a).1
   | .put k c sd a r q => (put s k c sd a r q).1
   | .enqueue k c sd m t => (enqueue s k c sd m t).1
-  | .sign id v a b f => (sign s id v a b f).1
+  | .sign id v a b f w => (sign s id v a b f w).1
   | .addEstimate id v x => (addEstimate s id v x).1
   | .endBlock => (endBlock s).1
   | .setPublic id => (setPublic s id).1
@@ -625,7 +678,7 @@ def apply (s : State) : Op → State
   | .addEvidence id v h => (addEv s id v h).1
   | .remove id => (remove s id).1
   | .putBatch n c r => putBatch s n c r
-  | .confirm n v a b f => (confirm s n v a b f).1
+  | .confirm n v a b f w => (confirm s n v a b f w).1
   | .updateBatchGas n g => (updateBatchGas s n g).1
 
 def run (ops : List Op) : State := ops.foldl apply {}
